@@ -77,6 +77,57 @@ Theorem C19_print_callback_local :
 Proof. exact C19_print_callback_local_pf. Qed.
 Print Assumptions C19_print_callback_local.
 
+(* (f) a list option is ONE line at depth d: name = {v0, v1, ...} — every index exactly once, in order *)
+Theorem C19_list_line :
+  forall fmt name k flags vals sub def comment cbs pff d,
+  scalar_kind k = true -> has flags CFGF_LIST = true ->
+  let o := Opt name k flags vals sub def comment cbs in
+  print_opt fmt o pff d =
+  annotation flags comment d ++ indent_str d ++ cstr name ++ M " = {" ++
+  sep_by (M ", ") (map (print_value fmt o) (seq 0 (length vals))) ++ M "}" ++ [nl].
+Proof. exact C19_list_line_pf. Qed.
+Print Assumptions C19_list_line.
+
+(* (g) a scalar that has a value (and, for strings, a non-NULL one) is ONE uncommented line name=value;
+   a string whose value is NULL is commented out like an unset option *)
+Theorem C19_set_scalar_line :
+  forall fmt name k flags v vals sub def comment cbs pff d,
+  scalar_kind k = true -> has flags CFGF_LIST = false ->
+  null_string_value k (v :: vals) = false ->
+  let o := Opt name k flags (v :: vals) sub def comment cbs in
+  print_opt fmt o pff d =
+  annotation flags comment d ++ indent_str d ++ cstr name ++ M "=" ++ print_value fmt o 0 ++ [nl].
+Proof. exact C19_set_scalar_line_pf. Qed.
+Print Assumptions C19_set_scalar_line.
+
+Theorem C19_null_string_commented :
+  forall fmt name flags vals sub def comment cbs pff d,
+  has flags CFGF_LIST = false ->
+  null_string_value KStr vals = true ->
+  let o := Opt name KStr flags vals sub def comment cbs in
+  print_opt fmt o pff d =
+  annotation flags comment d ++ indent_str d ++ M "# " ++ cstr name ++ M "=" ++ print_value fmt o 0 ++ [nl].
+Proof. exact C19_null_string_commented_pf. Qed.
+Print Assumptions C19_null_string_commented.
+
+(* (h) functions and untyped options contribute nothing unless they carry a print callback *)
+Theorem C19_func_line :
+  forall fmt name k flags vals sub def comment cbs pff d,
+  (k = KFunc \/ k = KNone) ->
+  let o := Opt name k flags vals sub def comment cbs in
+  print_opt fmt o pff d =
+  annotation flags comment d ++
+  match cb_print cbs with Some _ => indent_str d ++ pf_text o 0 ++ [nl] | None => [] end.
+Proof. exact C19_func_line_pf. Qed.
+Print Assumptions C19_func_line.
+
+(* (i) "at its depth": the indentation at depth d is exactly 2*d spaces, one level adds two *)
+Theorem C19_indent_is_depth :
+  forall d, length (indent_str d) = 2 * d /\ Forall (fun b => b = x20) (indent_str d) /\
+            indent_str (S d) = M "  " ++ indent_str d.
+Proof. intro d. split; [apply indent_str_length | split; [apply indent_str_spaces | apply indent_str_S]]. Qed.
+Print Assumptions C19_indent_is_depth.
+
 (* ---------------- non-vacuity ---------------- *)
 (* three levels: root filters "hidden"; sec has no filter (inherits it); inner filters "b" instead,
    so its "hidden" is printed and its "b" is not *)
@@ -113,7 +164,9 @@ Example C19_example :
   eff_filter ex_l2 (Some [M "hidden"]) = Some [M "hidden"] /\
   eff_filter ex_l3 (Some [M "hidden"]) = Some [M "b"] /\
   map o_name (filter (fun o => negb (suppressed (eff_filter ex_root None) o)) (c_opts ex_root)) = [M "a"; M "sec"; M "z"] /\
-  scalar_kind KStr = true /\ has 0 CFGF_LIST = false /\ cb_print (o_cbs (ex_mk "s" KStr 0 [] None ex_pcb)) = Some 7%N /\
+  scalar_kind KStr = true /\ has 0 CFGF_LIST = false /\ has CFGF_LIST CFGF_LIST = true /\
+  null_string_value KInt [VInt 5] = false /\ null_string_value KStr [VStr None] = true /\
+  null_string_value KStr [VStr (Some (M "q"))] = false /\ cb_print (o_cbs (ex_mk "s" KStr 0 [] None ex_pcb)) = Some 7%N /\
   print_cfg ex_fmt ex_root None 0 =
   ex_lines [ "/* the a */";
              "a=1";
